@@ -69,6 +69,28 @@ def oracle_fwd(case, impl):
         f = ["fwd", f[1], (b".".join(labels) + b".").hex() if labels else b".".hex()] + f[3:]
         r = oracle_fwd(" ".join(f), impl)
         return None if r is None else "wire query (question %r, section after it possibly malformed): %s" % (b".".join(labels), r)
+    if f[0] == "fwdseq":
+        # names resolved one after the other on ONE forwarder list: each goes to the upstream it would go to alone
+        if not impl.startswith("seq="):
+            return None
+        outs = impl[4:].split("/")
+        names = f[2].split(",")
+        if len(outs) != len(names):
+            return "fwdseq: %d names, %d results" % (len(names), len(outs))
+        for i, (n, o) in enumerate(zip(names, outs)):
+            got, alone = o.split(":") if ":" in o else (o, o)
+            if got != alone:
+                return ("query %d of a sequence on one forwarder list, name %r, was sent to upstream %s; the same rules asked this name "
+                        "alone send it to %s: where a name goes depends on what was asked before" % (i + 1, unhex(n), got, alone))
+        first = {}
+        for i, (n, o) in enumerate(zip(names, outs)):
+            if n in first and first[n][1] != o:
+                return ("the same name %r was sent to upstream %s as query %d and to upstream %s as query %d of one sequence on one "
+                        "forwarder list: where a name goes depends on what was asked before" % (unhex(n), first[n][1], first[n][0] + 1, o, i + 1))
+            first.setdefault(n, (i, o))
+            if "," in o:
+                return "query %d of the sequence was sent to several upstreams (%s)" % (i + 1, o)
+        return None
     if f[0] != "fwd" or not impl.startswith("list="):
         return None
     d = kv("x " + impl)
